@@ -179,8 +179,8 @@ func init() {
 			return &Val{T: resT, S: t}, true
 		}
 	}
-	summaryRegistry[modPath+"/x/bitcoin/types.NewBitcoinHashEthTx"] = ethTx("ethtx_hash")             // (nonce, hash)
-	summaryRegistry["(*"+modPath+"/x/bitcoin/types.DepositExecReceipt).EthTx"] = ethTx("ethtx_deposit")   // (receipt, nonce)
-	summaryRegistry["(*"+modPath+"/x/bitcoin/types.WithdrawalExecReceipt).EthTx"] = ethTx("ethtx_paid")   // (receipt, nonce)
-	summaryRegistry[modPath+"/x/bitcoin/types.NewRejectEthTx"] = ethTx("ethtx_reject")                // (withdrawal id, nonce)
+	summaryRegistry[modPath+"/x/bitcoin/types.NewBitcoinHashEthTx"] = ethTx("ethtx_hash")               // (nonce, hash)
+	summaryRegistry["(*"+modPath+"/x/bitcoin/types.DepositExecReceipt).EthTx"] = ethTx("ethtx_deposit") // (receipt, nonce)
+	summaryRegistry["(*"+modPath+"/x/bitcoin/types.WithdrawalExecReceipt).EthTx"] = ethTx("ethtx_paid") // (receipt, nonce)
+	summaryRegistry[modPath+"/x/bitcoin/types.NewRejectEthTx"] = ethTx("ethtx_reject")                  // (withdrawal id, nonce)
 }
